@@ -9,6 +9,7 @@ import (
 	"strconv"
 	"strings"
 	"sync"
+	"sync/atomic"
 	"time"
 
 	"github.com/emersion/go-imap/v2"
@@ -30,7 +31,15 @@ func init() {
 	replayers["C12"] = replayC12
 }
 
-const c12Deadline = 2 * time.Second
+// Every wait is event-driven (condition variables / channels), so the healthy path never sleeps;
+// the deadline only bounds a wait that will never be satisfied (a command that never completes,
+// a reader that died). It is generous because the machine may be heavily loaded, one deadline
+// is shared by all waits of a step, and a case in which a wait expired is re-run once alone
+// (c12RunChecked) before its observation counts.
+const c12Deadline = 30 * time.Second
+
+var c12Isolation sync.RWMutex // re-runs after an expiry hold it exclusively
+var c12Hangs int32          // cases whose re-run in isolation expired again (genuine hangs)
 
 var c12Mboxes = []string{"INBOX", "Archive", "Work", "Trash"}
 var c12Flags = []string{`\Seen`, `\Answered`, `\Flagged`, `\Deleted`, `\Draft`, `$Forwarded`, `\*`}
@@ -203,6 +212,9 @@ type c12Script struct {
 	litSize   int
 	dead      bool // the client has closed the connection (observed)
 	srvClosed bool
+
+	stepDeadline time.Time
+	expired      bool // some wait of this case ran into its deadline
 }
 
 // closedByClient is set by Close on the client end (the harness never closes that end itself).
@@ -259,13 +271,15 @@ func (s *c12Script) addUni(e string, fetch bool) {
 
 // waitCond waits (bounded) until f holds; f is evaluated under s.mu.
 func (s *c12Script) waitCond(f func() bool) bool {
-	deadline := time.Now().Add(c12Deadline)
-	t := time.AfterFunc(c12Deadline, func() { s.mu.Lock(); s.cond.Broadcast(); s.mu.Unlock() })
+	d := s.left()
+	deadline := time.Now().Add(d)
+	t := time.AfterFunc(d, func() { s.mu.Lock(); s.cond.Broadcast(); s.mu.Unlock() })
 	defer t.Stop()
 	s.mu.Lock()
 	defer s.mu.Unlock()
 	for !f() {
 		if !time.Now().Before(deadline) {
+			s.expired = true
 			return false
 		}
 		s.cond.Wait()
@@ -273,11 +287,28 @@ func (s *c12Script) waitCond(f func() bool) bool {
 	return true
 }
 
-func waitChan(ch chan struct{}) bool {
+// left is the time left for the waits of the current step.
+func (s *c12Script) left() time.Duration {
+	d := time.Until(s.stepDeadline)
+	if d < 50*time.Millisecond {
+		d = 50 * time.Millisecond
+	}
+	return d
+}
+
+func (s *c12Script) waitChan(ch chan struct{}) bool {
 	select {
 	case <-ch:
 		return true
-	case <-time.After(c12Deadline):
+	default:
+	}
+	t := time.NewTimer(s.left())
+	defer t.Stop()
+	select {
+	case <-ch:
+		return true
+	case <-t.C:
+		s.expired = true
 		return false
 	}
 }
@@ -494,9 +525,10 @@ func (s *c12Script) start(c *c12Cmd) {
 
 // readWire reads one command line (up to CRLF) the client wrote; "" on deadline/EOF.
 func (s *c12Script) readWire() string {
-	s.sc.SetReadDeadline(time.Now().Add(c12Deadline))
+	s.sc.SetReadDeadline(time.Now().Add(s.left()))
 	line, err := s.sr.ReadString('\n')
 	if err != nil {
+		s.expired = true
 		return ""
 	}
 	return strings.TrimRight(line, "\r\n")
@@ -539,8 +571,11 @@ func (s *c12Script) settle() {
 	if s.dead {
 		return
 	}
-	if r := s.cc.awaitIdle(s.written, c12Deadline); r == "closed" {
+	switch s.cc.awaitIdle(s.written, s.left()) {
+	case "closed":
 		s.markDead()
+	case "timeout":
+		s.expired = true
 	}
 }
 
@@ -550,10 +585,10 @@ func (s *c12Script) markDead() {
 	s.dead = true
 	done := make(chan struct{})
 	go func() { s.client.Close(); close(done) }()
-	waitChan(done)
+	s.waitChan(done)
 	for _, c := range s.cmds {
 		if !c.auto {
-			waitChan(c.finished)
+			s.waitChan(c.finished)
 		}
 	}
 }
@@ -597,6 +632,7 @@ func c12CapText(ids string) string {
 
 // step executes one event and returns the observation.
 func (s *c12Script) step(ev string) string {
+	s.stepDeadline = time.Now().Add(c12Deadline)
 	f := strings.Split(ev, ":")
 	wire := "-"
 	switch f[0] {
@@ -605,8 +641,8 @@ func (s *c12Script) step(ev string) string {
 		s.cmds = append(s.cmds, c)
 		s.start(c)
 		if s.dead {
-			waitChan(c.returned)
-			waitChan(c.finished)
+			s.waitChan(c.returned)
+			s.waitChan(c.finished)
 			wire = fmt.Sprintf("w%d", c.tag)
 			break
 		}
@@ -619,7 +655,7 @@ func (s *c12Script) step(ev string) string {
 				wire += "!noliteral"
 			}
 		} else {
-			if !waitChan(c.returned) {
+			if !s.waitChan(c.returned) {
 				wire += "!stuck"
 			}
 			if c12LiteralSize(line) >= 0 {
@@ -640,17 +676,18 @@ func (s *c12Script) step(ev string) string {
 		s.settle()
 		if c := s.blocked; c != nil && !s.dead {
 			// literal bytes, then the rest of the command line
-			s.sc.SetReadDeadline(time.Now().Add(c12Deadline))
+			s.sc.SetReadDeadline(time.Now().Add(s.left()))
 			buf := make([]byte, s.litSize)
 			for n := 0; n < len(buf); {
 				k, err := s.sr.Read(buf[n:])
 				if err != nil {
+					s.expired = true
 					break
 				}
 				n += k
 			}
 			s.readWire()
-			waitChan(c.returned)
+			s.waitChan(c.returned)
 			s.blocked = nil
 		}
 	case "g":
@@ -667,10 +704,10 @@ func (s *c12Script) step(ev string) string {
 		if tag >= 1 && tag <= len(s.cmds) {
 			c := s.cmds[tag-1]
 			if !c.auto && !c.reported {
-				waitChan(c.finished)
+				s.waitChan(c.finished)
 			}
 			if s.blocked == c {
-				waitChan(c.returned)
+				s.waitChan(c.returned)
 				s.blocked = nil
 				s.checkDead()
 			}
@@ -679,8 +716,11 @@ func (s *c12Script) step(ev string) string {
 		s.send("* BYE shutting down")
 		s.sc.Close()
 		s.srvClosed = true
-		if r := s.cc.awaitIdle(-2, c12Deadline); r == "closed" {
+		switch s.cc.awaitIdle(-2, s.left()) {
+		case "closed":
 			s.markDead()
+		case "timeout":
+			s.expired = true
 		}
 	default:
 		var line string
@@ -782,24 +822,43 @@ func (s *c12Script) observe() string {
 }
 
 func (s *c12Script) close() {
+	s.stepDeadline = time.Now().Add(c12Deadline)
 	s.sc.Close()
 	done := make(chan struct{})
 	go func() { s.client.Close(); close(done) }()
-	waitChan(done)
+	s.waitChan(done)
 }
 
-func c12Run(evs []string) caseLine {
+func c12Run(evs []string) (caseLine, bool) {
 	s := newC12Script()
 	defer s.close()
 	var obs []string
 	for _, ev := range evs {
 		obs = append(obs, s.step(ev))
 	}
-	return caseLine{kind: "tr", fields: []string{strings.Join(evs, ";"), strings.Join(obs, ";")}}
+	return caseLine{kind: "tr", fields: []string{strings.Join(evs, ";"), strings.Join(obs, ";")}}, s.expired
+}
+
+// c12RunChecked runs a case next to the others; if some wait expired, the case is run once more
+// with nothing else running, and that second observation is the one that counts.
+func c12RunChecked(evs []string) caseLine {
+	c12Isolation.RLock()
+	l, expired := c12Run(evs)
+	c12Isolation.RUnlock()
+	if !expired {
+		return l
+	}
+	c12Isolation.Lock()
+	l, expired = c12Run(evs)
+	c12Isolation.Unlock()
+	if expired {
+		atomic.AddInt32(&c12Hangs, 1)
+	}
+	return l
 }
 
 func replayC12(e *emitter, kind string, f []string) {
-	l := c12Run(strings.Split(f[0], ";"))
+	l := c12RunChecked(strings.Split(f[0], ";"))
 	e.emit(l.kind, l.fields...)
 }
 
@@ -812,6 +871,10 @@ var c12Corpus = []string{
 	// F20: a failed SELECT deselects
 	"g:preauth:c;s:sel.0;x:3;f:01;t:1:ok:o3;s:sel.1;t:2:no:o5;s:noop;t:3:ok:-",
 	"g:preauth:c;s:sel.0;x:3;f:01;t:1:ok:o3;s:sel.1;t:2:bad:-;s:noop;t:3:ok:-",
+	// EXISTS after EXPUNGE inside one EXPUNGE command carries the final count
+	"g:preauth:c;s:sel.0;x:10;t:1:ok:-;s:expunge;e:3;e:3;x:9;t:2:ok:-;s:noop;t:3:ok:-",
+	// tags of different width pending together, answered in reverse order (T9 / T10)
+	"g:preauth:c;s:noop;t:1:ok:-;s:noop;t:2:ok:-;s:noop;t:3:ok:-;s:noop;t:4:ok:-;s:noop;t:5:ok:-;s:noop;t:6:ok:-;s:noop;t:7:ok:-;s:noop;t:8:ok:-;s:noop;s:list;s:stat.1;st:1:4;t:11:ok:-;l:2;t:10:ok:-;t:9:ok:-;s:noop;t:12:ok:-",
 	// F29: after BYE no mailbox is selected
 	"g:preauth:c;s:sel.0;x:3;t:1:ok:-;s:noop;y;s:noop",
 }
@@ -825,7 +888,7 @@ func genC12(e *emitter, tier string, seed uint64) {
 		n = 30000
 	}
 	for _, c := range c12Corpus {
-		l := c12Run(strings.Split(c, ";"))
+		l := c12RunChecked(strings.Split(c, ";"))
 		e.emit(l.kind, l.fields...)
 	}
 	base := newRng(seed, "C12")
@@ -834,9 +897,14 @@ func genC12(e *emitter, tier string, seed uint64) {
 		seeds[i] = base.next()
 	}
 	parCases(e, n, func(i int) []caseLine {
+		// after a few confirmed hangs the verdict is settled (each is a failing case with a
+		// replay); waiting 2 x 30 s for every further one would only make the run endless
+		if atomic.LoadInt32(&c12Hangs) >= 3 {
+			return []caseLine{{kind: "skipped", fields: []string{"after-confirmed-hangs"}, counts: []string{"skipped:after-confirmed-hangs"}}}
+		}
 		r := &rng{s: seeds[i]}
 		evs, counts := c12Gen(r)
-		l := c12Run(evs)
+		l := c12RunChecked(evs)
 		l.counts = counts
 		return []caseLine{l}
 	})
@@ -1400,6 +1468,20 @@ func c12Gen(r *rng) ([]string, []string) {
 		}
 		g.emit(fmt.Sprintf("t:%d:ok:o3", g.next))
 		g.state = 's'
+	}
+	// warm-up: earlier commands on the same connection, so that the tags of the pipelined commands
+	// are not always the first few (T9/T10, T99/T100 sort differently as strings and as numbers)
+	if g.alive {
+		warm := r.intn(13)
+		if r.chance(1, 20) {
+			warm = 95 + r.intn(11)
+		}
+		for i := 0; i < warm; i++ {
+			g.next++
+			g.emit("s:noop")
+			g.emit(fmt.Sprintf("t:%d:ok:-", g.next))
+		}
+		g.counts = append(g.counts, fmt.Sprintf("warmup:%d", warm/10*10))
 	}
 	nonconf := ""
 	if r.chance(1, 25) {
